@@ -374,7 +374,8 @@ def goneKey (objs : List (Key × Obj)) (s1 : Store) (sub : Str) (k : Key) : Bool
 the removal pass does not delete a top-level option that still has children -/
 theorem update_project_options_keeps_parentCurrent (sub : Str) (objs : List (Key × Obj)) (s : Store)
     (hw : Wf s) (hpc : ParentCurrent s) (hn : ∀ kv ∈ objs, kv.2.parent = none)
-    (hkeep : ∀ k id, alookup k (forEach (updateOne sub) objs s).2.options = some id →
+    (hkeep : ∀ k id o pid, alookup k (forEach (updateOne sub) objs s).2.options = some id →
+      (forEach (updateOne sub) objs s).2.heap[id]? = some o → o.parent = some pid →
       goneKey objs (forEach (updateOne sub) objs s).2 sub k.asRoot = false) :
     ParentCurrent (updateProjectOptions sub objs s).2 := by
   obtain ⟨hw1, hp1⟩ := updateLoop_keeps sub objs s hw hpc hn
@@ -394,7 +395,7 @@ theorem update_project_options_keeps_parentCurrent (sub : Str) (objs : List (Key
       by_cases hq : (!((!objs.any fun p => p.fst == k) && s1.isProjectOption k && k.sub == some sub)) = true
       · simp only [hq, if_true] at hk
         have h1 := hp1 k id o pid hk hi hpar
-        have hg := hkeep k id hk
+        have hg := hkeep k id o pid hk hi hpar
         have hf2 := alookup_filter_key k.asRoot (fun k => !(goneKey objs s1 sub k)) s1.options
         simp only [goneKey] at hf2 hg
         rw [hf2]
@@ -406,7 +407,7 @@ theorem update_subproject_options_keeps_parentCurrent (sub : Str) (objs : List (
     (hsub : sub ≠ []) (hw : Wf s) (hpc : ParentCurrent s) (hn : ∀ kv ∈ objs, kv.2.parent = none) :
     ParentCurrent (updateProjectOptions sub objs s).2 := by
   apply update_project_options_keeps_parentCurrent sub objs s hw hpc hn
-  intro k id _
+  intro k id _ _ _ _ _
   have : (k.asRoot.sub == some sub) = false := by
     simp only [Key.asRoot, beq_eq_false_iff_ne, ne_eq, Option.some.injEq]
     exact fun e => hsub e.symm
